@@ -1577,7 +1577,7 @@ const ISimdVVV iSimdVVV[65] = {
 
 const ISimdVVVI iSimdVVVI[2] = {
   { 0b0010111000000000000000, kVO_V_B, 4, 11, 1 }, // ext_v
-  { 0b1100111001100000100011, kVO_V_D2, 6, 10, 0 }  // xar_v
+  { 0b1100111010000000000000, kVO_V_D2, 6, 10, 0 }  // xar_v
 };
 
 const ISimdVVVV iSimdVVVV[2] = {
